@@ -1,3 +1,99 @@
 // ===================== spec: timestamps (C16) =====================
-/// the instant (ns) denoted by an ISO-8601 string, None if the string is not accepted (defined in unit `time`)
-pub uninterp spec fn iso_instant(s: Seq<u8>) -> Option<int>;
+/// the capture groups of the ISO-8601 pattern in chronoutil.rs, as byte strings
+pub struct IsoGroups {
+    pub year: Seq<u8>, pub month: Seq<u8>, pub day: Seq<u8>, pub hour: Seq<u8>, pub minute: Seq<u8>, pub second: Seq<u8>,
+    pub frac: Option<Seq<u8>>, pub offset: Seq<u8>,
+}
+/// TRUSTED (regex language): whether and how the anchored pattern matches; uninterpreted, constrained only by axiom_iso_groups_shape
+pub uninterp spec fn iso_groups(s: Seq<u8>) -> Option<IsoGroups>;
+pub open spec fn is_digit(b: u8) -> bool { 0x30 <= b <= 0x39 }
+pub open spec fn all_digits(s: Seq<u8>) -> bool { forall|i: int| 0 <= i < s.len() ==> is_digit(#[trigger] s[i]) }
+/// decimal value of a digit string
+pub open spec fn dec(s: Seq<u8>) -> int
+    decreases s.len()
+{
+    if s.len() == 0 { 0 } else { 10 * dec(s.drop_last()) + (s.last() - 0x30) }
+}
+pub open spec fn offset_shape(o: Seq<u8>) -> bool {
+    ||| o == seq![0x5au8]
+    ||| (o.len() == 5 && (o[0] == 0x2b || o[0] == 0x2d) && is_digit(o[1]) && is_digit(o[2]) && is_digit(o[3]) && is_digit(o[4]))
+    ||| (o.len() == 6 && (o[0] == 0x2b || o[0] == 0x2d) && is_digit(o[1]) && is_digit(o[2]) && o[3] == 0x3a && is_digit(o[4]) && is_digit(o[5]))
+}
+/// what the pattern guarantees about its groups on Latin-1 input (where \d is [0-9]): field widths and digit-ness. (The per-field *ranges*
+/// the pattern also enforces are not needed for totality or for the value and are not assumed.)
+pub open spec fn groups_shape(g: IsoGroups) -> bool {
+    &&& g.year.len() == 4 && all_digits(g.year)
+    &&& g.month.len() == 2 && all_digits(g.month)
+    &&& g.day.len() == 2 && all_digits(g.day)
+    &&& g.hour.len() == 2 && all_digits(g.hour)
+    &&& g.minute.len() == 2 && all_digits(g.minute)
+    &&& g.second.len() == 2 && all_digits(g.second)
+    &&& (g.frac is Some ==> g.frac->Some_0.len() >= 1 && all_digits(g.frac->Some_0))
+    &&& offset_shape(g.offset)
+}
+pub open spec fn latin1_only(s: Seq<char>) -> bool { forall|i: int| 0 <= i < s.len() ==> (#[trigger] s[i] as u32) < 256 }
+/// TRUSTED (chrono calendar): which (y, m, d) exist and the day number of a date; uninterpreted
+pub uninterp spec fn ymd_valid(y: int, m: int, d: int) -> bool;
+pub uninterp spec fn ymd_days(y: int, m: int, d: int) -> int;
+/// fraction digits padded / truncated to exactly nine (nanoseconds)
+pub open spec fn frac9(f: Seq<u8>) -> Seq<u8> {
+    if f.len() >= 9 { f.subrange(0, 9) } else { f + Seq::new((9 - f.len()) as nat, |i: int| 0x30u8) }
+}
+pub open spec fn offset_seconds(o: Seq<u8>) -> int {
+    if o == seq![0x5au8] { 0 }
+    else {
+        let h = dec(o.subrange(1, 3));
+        let m = if o.len() == 5 { dec(o.subrange(3, 5)) } else { dec(o.subrange(4, 6)) };
+        (if o[0] == 0x2d { -1int } else { 1int }) * (h * 3600 + m * 60)
+    }
+}
+/// the instant (ns) a reference parser assigns: civil fields interpreted in the given offset, fraction truncated to nanoseconds
+pub open spec fn iso_instant_of(g: IsoGroups) -> Option<int> {
+    let y = dec(g.year); let mo = dec(g.month); let d = dec(g.day);
+    let h = dec(g.hour); let mi = dec(g.minute); let sec = dec(g.second);
+    let nanos = if g.frac is Some { dec(frac9(g.frac->Some_0)) } else { 0 };
+    let off = offset_seconds(g.offset);
+    if !(-86400 < off < 86400) || !ymd_valid(y, mo, d) || !(h < 24 && mi < 60 && sec < 60) { None }
+    else { Some(((ymd_days(y, mo, d) * 86400 + h * 3600 + mi * 60 + sec) - off) * 1_000_000_000 + nanos) }
+}
+pub open spec fn iso_instant(s: Seq<u8>) -> Option<int> {
+    match iso_groups(s) { None => None, Some(g) => iso_instant_of(g) }
+}
+
+/// s with every occurrence of byte b removed
+pub open spec fn remove_byte(s: Seq<u8>, b: u8) -> Seq<u8>
+    decreases s.len()
+{
+    if s.len() == 0 { s } else if s.last() == b { remove_byte(s.drop_last(), b) } else { remove_byte(s.drop_last(), b).push(s.last()) }
+}
+pub proof fn lemma_remove_colon(o: Seq<u8>)
+    requires offset_shape(o), o != seq![0x5au8]
+    ensures
+        o.len() == 5 ==> remove_byte(o, 0x3a) == o,
+        o.len() == 6 ==> remove_byte(o, 0x3a) == o.subrange(0, 3) + o.subrange(4, 6),
+{
+    reveal_with_fuel(remove_byte, 8);
+    if o.len() == 5 {
+        let a = o.drop_last(); let b = a.drop_last(); let c = b.drop_last(); let d = c.drop_last(); let e = d.drop_last();
+        assert(e.len() == 0);
+        assert(remove_byte(o, 0x3a) =~= o);
+    } else {
+        let a = o.drop_last(); let b = a.drop_last(); let c = b.drop_last(); let d = c.drop_last(); let e = d.drop_last(); let f = e.drop_last();
+        assert(f.len() == 0);
+        assert(b.last() == 0x3a);
+        assert(remove_byte(o, 0x3a) =~= o.subrange(0, 3) + o.subrange(4, 6));
+    }
+}
+pub proof fn lemma_dec_bound(s: Seq<u8>)
+    requires all_digits(s)
+    ensures 0 <= dec(s) < pow10(s.len())
+    decreases s.len()
+{
+    if s.len() > 0 {
+        assert(all_digits(s.drop_last())) by { assert forall|i: int| 0 <= i < s.drop_last().len() implies is_digit(#[trigger] s.drop_last()[i]) by { assert(s.drop_last()[i] == s[i]); } }
+        lemma_dec_bound(s.drop_last());
+    }
+}
+pub open spec fn pow10(n: nat) -> int
+    decreases n
+{ if n == 0 { 1 } else { 10 * pow10((n - 1) as nat) } }
